@@ -8,8 +8,12 @@ import (
 	"fmt"
 	"math/rand/v2"
 	"os"
+	"runtime"
 	"strings"
+	"sync"
+	"sync/atomic"
 	"testing"
+	"time"
 
 	ebu "github.com/jilio/ebu"
 
@@ -439,6 +443,120 @@ func TestC12(t *testing.T) {
 					run.Count("runs_"+kind, 1)
 				}
 			}
+		}
+	}
+}
+
+// ---------------------------------------------------------------------------------------------
+// concurrent live publishers against a Sequential replay subscription: with the handler, the read
+// of the bus's last offset and the save serialised per subscription, the saved offset must be
+// monotonic whatever the publishers' interleaving (clause "never moves backwards").
+
+type lateStore struct {
+	inner *ebu.MemoryStore
+	seed  uint64
+	ctr   atomic.Uint64
+	saves []string // "id=offset" in call order (guarded by mu)
+	mu    sync.Mutex
+}
+
+func (s *lateStore) Append(ctx context.Context, e *ebu.Event) (ebu.Offset, error) {
+	off, err := s.inner.Append(ctx, e)
+	// the append is in the log but has not returned yet: widen this window
+	n := s.ctr.Add(1)
+	x := (n*0x9E3779B97F4A7C15 ^ s.seed) * 0xBF58476D1CE4E5B9
+	switch (x >> 33) % 5 {
+	case 0:
+		runtime.Gosched()
+	case 1:
+		time.Sleep(time.Duration((x>>40)%60) * time.Microsecond)
+	case 2:
+		for i := 0; i < int((x>>40)%2000); i++ {
+			_ = i * i
+		}
+	}
+	return off, err
+}
+func (s *lateStore) Read(ctx context.Context, from ebu.Offset, limit int) ([]*ebu.StoredEvent, ebu.Offset, error) {
+	return s.inner.Read(ctx, from, limit)
+}
+func (s *lateStore) SaveOffset(ctx context.Context, id string, off ebu.Offset) error {
+	s.mu.Lock()
+	s.saves = append(s.saves, id+"="+string(off))
+	s.mu.Unlock()
+	return s.inner.SaveOffset(ctx, id, off)
+}
+func (s *lateStore) LoadOffset(ctx context.Context, id string) (ebu.Offset, error) {
+	return s.inner.LoadOffset(ctx, id)
+}
+
+func TestC12Concurrent(t *testing.T) {
+	run := vk.New("C12", "concurrent-live")
+	defer run.Finish()
+	n := run.Scale(150, 5000)
+	procs := []int{2, 4, 16, 1}
+	defer runtime.GOMAXPROCS(runtime.GOMAXPROCS(0))
+	for i := 0; i < n; i++ {
+		rng := run.Rand(uint64(i))
+		runtime.GOMAXPROCS(procs[i%len(procs)])
+		st := &lateStore{inner: ebu.NewMemoryStore(), seed: rng.Uint64()}
+		bus := ebu.New(ebu.WithStore(st))
+		var mu sync.Mutex
+		got := map[int]int{}
+		if err := ebu.SubscribeWithReplay(context.Background(), bus, "seq", func(e tA) {
+			mu.Lock()
+			got[e.ID]++
+			mu.Unlock()
+		}, ebu.Sequential()); err != nil {
+			t.Fatal(err)
+		}
+		P := 2 + rng.IntN(5)
+		E := 2 + rng.IntN(8)
+		var wg sync.WaitGroup
+		start := make(chan struct{})
+		for p := 0; p < P; p++ {
+			wg.Add(1)
+			go func(p int) {
+				defer wg.Done()
+				<-start
+				for k := 0; k < E; k++ {
+					ebu.Publish(bus, tA{ID: p*100 + k})
+				}
+			}(p)
+		}
+		close(start)
+		wg.Wait()
+		bus.Wait()
+		witness := map[string]any{"publishers": P, "events_each": E, "gomaxprocs": procs[i%len(procs)], "saves_in_call_order": st.saves}
+		prev := ebu.Offset("")
+		for _, sv := range st.saves {
+			_, off, _ := strings.Cut(sv, "=")
+			if ebu.Offset(off) < prev {
+				run.Violation("resume:saved-offset-moved-backwards-under-concurrent-publishers", fmt.Sprintf("a Sequential replay subscription saved offset %s after %s with %d concurrent publishers", off, prev, P), witness)
+				break
+			}
+			prev = ebu.Offset(off)
+		}
+		for p := 0; p < P; p++ {
+			for k := 0; k < E; k++ {
+				if got[p*100+k] != 1 {
+					run.Violation("resume:live-delivery-count", fmt.Sprintf("event %d delivered %d times to the live subscription", p*100+k, got[p*100+k]), witness)
+				}
+			}
+		}
+		// restart: nothing at or below the saved position may come again, nothing above it may be lost
+		saved, _ := st.inner.LoadOffset(context.Background(), "seq")
+		bus2 := ebu.New(ebu.WithStore(st))
+		again := 0
+		ebu.SubscribeWithReplay(context.Background(), bus2, "seq", func(e tA) { again++ })
+		evs, _, _ := st.inner.Read(context.Background(), saved, 0)
+		if again != len(evs) {
+			run.Violation("resume:restart-after-concurrent-publishers", fmt.Sprintf("after restart %d events were replayed, %d lie after the saved offset %s", again, len(evs), saved), witness)
+		}
+		run.Case(fmt.Sprintf("P%d E%d p%d", P, E, procs[i%len(procs)]), P >= 2)
+		run.Count("saves_checked", int64(len(st.saves)))
+		if i == 0 {
+			run.Sample(witness)
 		}
 	}
 }
